@@ -237,8 +237,17 @@ def r6_autoref(ctx):
     ctx.check(first == "target.autoref = node.name" and last == "target.autoref = None", DIP, "DIP.parse",
               "{?} is bound to the node's path before its condition and cleared afterwards", detail=[first, last])
     rq = ctx.fn("src/scinumtools/dip/environment.py", "Environment.request")
-    ctx.form("if self.autoref and path == Sign.QUERY: source, query = ('', self.autoref)" in norm(rq).replace("\n", " "), "src/scinumtools/dip/environment.py",
-             "Environment.request", "a bare {?} resolves to the bound path")
+    from ..flowexpr import consistent, paths
+    pth = rq.args.args[1].arg if len(rq.args.args) > 1 else "path"
+    cnt = rq.args.args[2].arg if len(rq.args.args) > 2 else "count"
+
+    def atom(e):
+        k = norm(e)
+        return {"self.autoref": True, f"{pth} == Sign.QUERY": True, "not self.nodes": False, "self.nodes": True, cnt: False}.get(k)
+    cs, unk = consistent(paths(rq), atom)
+    rets = sorted({norm(e.resolved) for q in cs for e in q.events if e.kind == "return"})
+    ctx.form(bool(cs) and not unk and rets == ["self.nodes.query(self.autoref, tags=tags)"], "src/scinumtools/dip/environment.py",
+             "Environment.request", "a bare {?} resolves to the bound path", detail=rets or sorted(set(unk))[:2])
 
 
 def r7_membership(ctx):
